@@ -6,8 +6,10 @@ package main
 // SafetyFiles, and records emitted from call sites whose compile-time file name is chosen with
 // //line directives) are repeated `reps` times because Go randomises the iteration order of the
 // mapping table, and the DISTINCT results are recorded.  A "Chdir" event really changes the working
-// directory of this process (os.Chdir) and records what os.Getwd() says afterwards; every behaviour
-// starts in the directory the process was started in.  Nothing is judged here: the log is
+// directory of this process (os.Chdir) and records what os.Getwd() says afterwards; a "LoseWd" event
+// takes the working directory away (the process changes into a fresh directory next to the trace file
+// and removes it, so that os.Getwd fails); every behaviour starts in the directory the process was
+// started in.  Nothing is judged here: the log is
 // validated by TLC against spec/PathsTrace.tla.
 //
 // NOTE: keep siteReal above the first //line directive of this file - everything below a //line
@@ -17,6 +19,7 @@ import (
 	"encoding/json"
 	"fmt"
 	"os"
+	"path/filepath"
 	"regexp"
 	"runtime"
 	"strconv"
@@ -94,6 +97,7 @@ const pathsVolumesExpr = `/Volumes/[^/]+/`
 type pathsRun struct {
 	sc         *pathsScript
 	home, cwd  string
+	scratch    string // directory of the trace file: fresh directories to lose are made here
 	initFlags  slog.Flags
 	lj, ll, lc slog.Logger
 }
@@ -123,6 +127,9 @@ func pathsMain(args []string) int {
 		sc.Reps = 64
 	}
 	r := &pathsRun{sc: &sc, initFlags: slog.GetFlags()}
+	if abs, err := filepath.Abs(args[1]); err == nil {
+		r.scratch = filepath.Dir(abs)
+	}
 	r.home, _ = os.UserHomeDir()
 	r.cwd, _ = os.Getwd()
 	w := getWriter(2) // a LogWriter recorder
@@ -235,6 +242,21 @@ func (r *pathsRun) exec(ev pathsEvent) (rec map[string]any) {
 			rec["harness_error"] = "getwd: " + err.Error()
 		}
 		rec["wd"] = pathsS2B(wd)
+	case "LoseWd":
+		// the directory the process stands in is removed underneath it
+		dir, err := os.MkdirTemp(r.scratch, "paths-lost-")
+		if err != nil {
+			rec["harness_error"] = "mkdir: " + err.Error()
+		} else {
+			if err := os.Chdir(dir); err != nil {
+				rec["harness_error"] = "chdir: " + err.Error()
+			}
+			if err := os.Remove(dir); err != nil {
+				rec["harness_error"] = "remove: " + err.Error()
+			}
+		}
+		wd, err := os.Getwd()
+		rec["wd"], rec["lost"] = pathsS2B(wd), err != nil
 	case "AddRx":
 		rec["r"] = pathsRxRec(ev.R)
 		slog.AddKnownPathRegexpMapping(ev.R.expr(), pathsB2S(ev.R.Repl))
